@@ -22,6 +22,7 @@ TRUSTED = ["oracle: deep snapshot comparison on the real objects (harness/props/
 ASSUMPTIONS = ["the no-aliasing clause is monitored on the real objects, not proved (a pure functional model has no aliasing)",
                "file-system behaviour of io.open/write itself is trusted; crashes in the middle of write() are outside the property"]
 
+BOGUS = "bogus_option"     # an option value that is in no validOptions list
 MUTATORS = {"iinsert", "pinsert", "idelete", "pdelete", "tg_add", "tg_remove", "tg_rename", "tg_replace"}
 INPLACE_OK = {"tg_align"}   # documented to modify and return the given textgrid
 
@@ -35,20 +36,37 @@ def wants_x(c):
 
 def canon(c, line):
     if c.get("anyerr") and line.startswith("err"):
-        return "err"
+        parts = line.split(" ", 2)     # err <Class> <state after the raise>: the class is not compared, the state is
+        return "err * " + (parts[2] if len(parts) > 2 else "")
     return line
 
 
+# Statement-level correspondence (DESIGN 11.10): every mutator call of every history is sent to the IMPERATIVE model
+# (lean/PraatModel/Imperative.lean through RunImperative.lean, ops imp_*), which prints the object's final state on both
+# paths - after a normal return and after a raise - plus the error class; the line is compared with the state of the real
+# object after the real call (tierops._mut / tgops._mut return it on both paths).  The functional ops (iinsert, tg_add, ...)
+# are compared on the same histories by C05/C11/C12.
 def encode(c, enc):
     if c["op"] == "save":
         return "skip"
-    return dispatch.encode(c, enc)
+    line = dispatch.encode(c, enc)
+    if c["op"] in MUTATORS:
+        line = "imp_" + line
+        if c["op"] in ("iinsert", "pinsert"):
+            line += " " + c.get("report", "silence")
+        # an option value outside validOptions travels as `?` (names and labels are hex tokens: no clash)
+        line = " ".join("?" if tok == BOGUS else tok for tok in line.split(" "))
+    return line
 
 
 def render(c, r, enc):
     if c["op"] == "save":
         return "ok skip"
-    return dispatch.render(c, r[1], enc)
+    rr = r[1]
+    if c["op"] in MUTATORS and rr[0] == "err":
+        after = rr[-1]      # observable state of the receiver after the raise
+        return "err " + rr[1] + " " + (tgops.enc_tg(enc, after) if dispatch.is_tg(c) else T.enc_spec(enc, after))
+    return dispatch.render(c, rr, enc)
 
 
 def snap_any(o):
@@ -89,7 +107,7 @@ def impl(c):
         if not changed:
             continue
         if k == receiver and op in MUTATORS:
-            if r[0] == "err":
+            if r[0] == "err" and not c.get("outside"):
                 problems.append(("failed-mutation-changes-nothing", k))
         elif k == receiver and op in INPLACE_OK:
             pass
@@ -171,6 +189,10 @@ def tags(c, r):
     if r[1][0] == "err":
         out.append("err:" + r[1][1])
     out.append("mutator" if c["op"] in MUTATORS else "copy")
+    if c["op"] in MUTATORS:
+        out.append("stmt:" + c["op"] + (":err:" + r[1][1] if r[1][0] == "err" else ":ok"))
+        if c.get("outside"):
+            out.append("stmt:outside-the-quantifier")
     out += ["alias:" + c["op"] for p in r[2][:1] if p[0] in OBSERVATION_ONLY]
     return out
 
@@ -197,6 +219,32 @@ def fault_stream():
     g = {"lo": 0.0, "hi": 5.0, "tiers": [it, dict(pt), {"k": "I", "name": "b", "es": [], "lo": 0.0, "hi": 5.0}]}
     yield {"op": "iinsert", "tier": it, "entry": [1.5, 3.5, "n"], "mode": "error", "report": "silence"}
     yield {"op": "pinsert", "tier": pt, "entry": [1.0, "n"], "mode": "error", "report": "warning"}
+    # zero-length / reversed interval: ArgumentError out of the crop that looks for collisions, in every mode
+    for mode in ("error", "replace", "merge"):
+        yield {"op": "iinsert", "tier": it, "entry": [2.0, 2.0, "n"], "mode": mode, "report": "silence"}
+        yield {"op": "iinsert", "tier": it, "entry": [3.5, 1.5, "n"], "mode": mode, "report": "warning"}
+        yield {"op": "iinsert", "tier": it, "entry": [1.5, 6.5, " n "], "mode": mode, "report": "warning"}
+        yield {"op": "pinsert", "tier": pt, "entry": [1.0, " n "], "mode": mode, "report": "silence"}
+    # collisionReportingMode='error': OUTSIDE the property's quantifier (the signature says Literal["silence", "warning"]),
+    # accepted by validateOption; the reporter raises AFTER the tier has been modified.  Not judged by the oracle
+    # ("outside"); the statement-level model must leave the very same half-way state behind (Imp.exec_iinsertEntry_gen)
+    for mode in ("replace", "merge"):
+        yield {"op": "iinsert", "tier": it, "entry": [1.5, 6.5, "n"], "mode": mode, "report": "error", "outside": True}
+        yield {"op": "pinsert", "tier": pt, "entry": [1.0, "n"], "mode": mode, "report": "error", "outside": True}
+    yield {"op": "iinsert", "tier": it, "entry": [2.0, 3.0, "n"], "mode": "replace", "report": "error"}     # no collision: no report
+    # invalid option values: WrongOption from validateOption.  For replaceTier the option is validated by addTier INSIDE the
+    # try, after the old tier has been removed: only the except block makes the textgrid whole again
+    yield {"op": "iinsert", "tier": it, "entry": [1.5, 3.5, "n"], "mode": BOGUS, "report": "silence"}
+    yield {"op": "iinsert", "tier": it, "entry": [1.5, 3.5, "n"], "mode": "replace", "report": BOGUS}
+    yield {"op": "iinsert", "tier": it, "entry": [2.0, 3.0, "n"], "mode": BOGUS, "report": BOGUS}
+    yield {"op": "pinsert", "tier": pt, "entry": [1.0, "n"], "mode": BOGUS, "report": "warning"}
+    yield {"op": "pinsert", "tier": pt, "entry": [1.0, "n"], "mode": "merge", "report": BOGUS}
+    for idx in (None, 0, 7):
+        yield {"op": "tg_add", "tg": g, "tier": wide, "index": idx, "report": BOGUS}
+        yield {"op": "tg_add", "tg": g, "tier": dict(it, name="a"), "index": idx, "report": BOGUS}
+    for nm in ("a", "p", "b", "zz"):
+        yield {"op": "tg_replace", "tg": g, "name": nm, "tier": wide, "report": BOGUS, "anyerr": nm == "zz"}
+        yield {"op": "tg_replace", "tg": g, "name": nm, "tier": dict(wide, name="p"), "report": BOGUS, "anyerr": nm == "zz"}
     yield {"op": "idelete", "tier": it, "entry": [1.0, 2.0, "absent"]}
     yield {"op": "pdelete", "tier": pt, "entry": [2.0, "x"]}
     for idx in (None, 0, 1, -1, 7):
